@@ -16,7 +16,9 @@ EXPLANATION = (
     "in rten-tensor is discharged by offset provenance (offsets produced by layout/iterator code) or is in the reviewed "
     "table; (mut-unique) mutable iterators obtain element offsets only from the offset iterators, whose double-ended "
     "consistency is decided by the effect rule C07.DEI, and mutable lane iteration asserts the view is not broadcast. "
-    "UB-freedom of arbitrary call sequences in the Miri sense is not decided.")
+    "(dyn-rank) DynLayout's one array holds shape and strides of equal length at every construction / mutation site; "
+    "(unchecked-offset) safe callers of Layout::offset_unchecked test index_valid(), forward, or run under "
+    "layout.len() == data.len(). UB-freedom of arbitrary call sequences in the Miri sense is not decided.")
 ASSUMPTIONS = ["offsets produced by a TrustedLayout are < min_data_len (I2) is trusted per the unsafe trait contract", "std Vec/slice internals trusted"]
 
 TB = 'rten_tensor::tensor::TensorBase'
